@@ -33,14 +33,23 @@ def _contains(xs, v):
 M.contract('exactly_lib.type_val_deps.types.program.ddv.program:ProgramDdv.__init__',
            params=dict(self=Inst(ProgramDdv), command=Iface(CommandDdvI), stdin=ListOf(Iface(HasValidatorI)),
                        transformations=ListOf(Iface(HasValidatorI))),
+           ghosts=dict(j=Int),       # (an arbitrary index: the clauses hold for every j)
+           # Stated with explicit positions (quantifier free: the existential form is decided by the solvers only when
+           # the machine is idle): the validators of the command come first, then those of the stdin parts and of the
+           # transformations as two blocks, in either order.
            ensures={
-               'the validators of the command are validators of the program': lambda self, command:
-               forall_range(0, len(command.validators), lambda i: _contains(self._validators, command.validators[i])),
-               'the validator of every stdin part is a validator of the program': lambda self, stdin:
-               forall_range(0, len(stdin), lambda i: _contains(self._validators, stdin[i].validator)),
-               'the validator of every transformation is a validator of the program': lambda self, transformations:
-               forall_range(0, len(transformations),
-                            lambda i: _contains(self._validators, transformations[i].validator)),
+               'the validators of the command are validators of the program': lambda self, command, j:
+               (not (0 <= j < len(command.validators))) or self._validators[j] is command.validators[j],
+               'the validator of every stdin part is a validator of the program':
+                   lambda self, command, stdin, transformations, j:
+                   (not (0 <= j < len(stdin)))
+                   or self._validators[len(command.validators) + len(transformations) + j] is stdin[j].validator
+                   or self._validators[len(command.validators) + j] is stdin[j].validator,
+               'the validator of every transformation is a validator of the program':
+                   lambda self, command, stdin, transformations, j:
+                   (not (0 <= j < len(transformations)))
+                   or self._validators[len(command.validators) + j] is transformations[j].validator
+                   or self._validators[len(command.validators) + len(stdin) + j] is transformations[j].validator,
                'nothing else': lambda self, command, stdin, transformations:
                len(self._validators) == len(command.validators) + len(stdin) + len(transformations),
                'parts stored': lambda self, command, stdin, transformations:
